@@ -262,6 +262,36 @@ func ruleNWalk(c *engine.Context) *report.Rule {
 						}
 					}
 				}
+				// where the basic node's setter forwards a request along the next links, a composite
+				// that hands the request to each member multiplies it (all members share one
+				// successor): members may only be addressed where the composite itself is still
+				// unlinked, i.e. where nothing is forwarded any further
+				if basicForwards(p, m, setters) {
+					guarded := true
+					var at ssa.Instruction
+					for _, b := range fn.Blocks {
+						for _, ins := range b.Instrs {
+							mm, recv, _, isS := setterCall(p, ins, setters)
+							if !isS || mm != m {
+								continue
+							}
+							if _, _, okE := fieldOfBase(recv, fn.Params[0], 0); !okE {
+								continue
+							}
+							if derivesFromMemberEdge(recv, T, comp[T], 0) && !ownNextNilDominates(p, b, fn.Params[0], setters[m]) {
+								guarded, at = false, ins
+							}
+						}
+					}
+					r.Instances++
+					r.Oblige(guarded)
+					r.Sample("%s.%s hands the request to its members only while it is unlinked itself: %v", T.Obj().Name(), m, guarded)
+					if !guarded {
+						f := r.Violation(fmt.Sprintf("%s.%s multiplies forwarded requests", T.Obj().Name(), m), p.RelPos(at.Pos()),
+							"%s is forwarded along the next links by the basic node; %s hands a forwarded request to every member although all members share one successor, so a request travelling down a chain of k such nodes is multiplied at each of them: Parse takes time exponential in k (with the parser lock held)", m, T.Obj().Name())
+						engine.Restrict(f, "C02")
+					}
+				}
 				r.Instances++
 				r.Oblige(ok && own)
 				r.Sample("%s overrides %s: reaches {%s}: %v, own node: %v", T.Obj().Name(), m, edgeNames(T, comp[T]), ok, own)
@@ -1474,4 +1504,71 @@ func ruleNVgSum(c *engine.Context) *report.Rule {
 		}
 	}
 	return r
+}
+
+// basicForwards: the basic node's implementation of setter m calls m on the node stored in the
+// field it sets (a request is handed down the chain until it reaches the end).
+func basicForwards(p *load.Program, m string, setters map[string]int) bool {
+	for _, fn := range p.Funcs {
+		if fn.Name() != m || fn.Signature.Recv() == nil || fn.Blocks == nil {
+			continue
+		}
+		pt, ok := fn.Signature.Recv().Type().(*types.Pointer)
+		if !ok || !types.Identical(pt.Elem(), p.Roles.BasicNode) {
+			continue
+		}
+		for _, b := range fn.Blocks {
+			for _, ins := range b.Instrs {
+				call, ok := ins.(*ssa.Call)
+				if !ok || !call.Call.IsInvoke() || call.Call.Method.Name() != m {
+					continue
+				}
+				if ld, ok := call.Call.Value.(*ssa.UnOp); ok {
+					if fa, ok := ld.X.(*ssa.FieldAddr); ok && fa.Field == setters[m] && fa.X == ssa.Value(fn.Params[0]) {
+						return true
+					}
+				}
+			}
+		}
+	}
+	return false
+}
+
+// ownNextNilDominates: block b is only reached where field f of recv's basic node was tested to be nil.
+func ownNextNilDominates(p *load.Program, b *ssa.BasicBlock, recv ssa.Value, f int) bool {
+	for _, dc := range dominatingConds(b) {
+		cond, neg := unwrapNot(dc.cond)
+		bo, ok := cond.(*ssa.BinOp)
+		if !ok || (bo.Op != token.EQL && bo.Op != token.NEQ) {
+			continue
+		}
+		var other ssa.Value
+		if cst, isC := bo.Y.(*ssa.Const); isC && cst.IsNil() {
+			other = bo.X
+		} else if cst, isC := bo.X.(*ssa.Const); isC && cst.IsNil() {
+			other = bo.Y
+		} else {
+			continue
+		}
+		ld, ok := other.(*ssa.UnOp)
+		if !ok {
+			continue
+		}
+		fa, ok := ld.X.(*ssa.FieldAddr)
+		if !ok || fa.Field != f {
+			continue
+		}
+		pt, ok := fa.X.Type().(*types.Pointer)
+		if !ok || !types.Identical(pt.Elem(), p.Roles.BasicNode) {
+			continue
+		}
+		if _, _, okB := fieldOfBase(fa.X, recv, 0); !okB {
+			continue
+		}
+		isNil := (bo.Op == token.EQL) == (dc.taken != neg)
+		if isNil {
+			return true
+		}
+	}
+	return false
 }
